@@ -42,7 +42,8 @@ prop("C14", [_lazy("state", "rule_ctx1"), _lazy("state", "rule_ctx2"), _lazy("st
              _lazy("naming", "rule_uniq2"),
              _lazy("misc", "rule_compose1"),
              _lazy("misc", "rule_constesc1"),
-             _lazy("misc", "rule_memokey1")],
+             _lazy("misc", "rule_memokey1"),
+             _lazy("naming", "rule_uniq3")],
      "Static decision of the clauses of C14 that are visible in code shape: the thread-local reference context is "
      "saved/restored on every exit and only used through `with` (CTX-1..3); no function reachable from a library "
      "entry point writes module-level, class-level, closure or default-argument state (GLOB-1, effect summaries "
@@ -210,7 +211,8 @@ prop("C10", [_lazy("emit", "rule_lim"), _lazy("emit", "rule_inj3"), _lazy("emit"
 prop("C11", [_lazy("emit", "rule_inj2"), _lazy("emit", "rule_inj5"), _lazy("emit", "rule_sib2"), _lazy("emit", "rule_label1"),
              _lazy("imports", "rule_shadow1"), _lazy("emit", "rule_dup1"), _lazy("state", "rule_cache2"),
              _lazy("naming", "rule_optfwd1"), _lazy("naming", "rule_uniq1"), _lazy("naming", "rule_uniq2"),
-             _lazy("imports", "rule_shadow2"), _lazy("naming", "rule_label2"), _lazy("naming", "rule_label5")],
+             _lazy("imports", "rule_shadow2"), _lazy("naming", "rule_label2"), _lazy("naming", "rule_label5"),
+             _lazy("naming", "rule_uniq4")],
      "Static decision of: every use of the original key in the field_data family is a comparison, a label "
      "conversion, a container display (rendered by repr) or an exact escaper in code context (INJ-2); on every "
      "feasible path of each generator the original key is attached and rendered whenever the name differs (and "
@@ -228,7 +230,8 @@ prop("C03", [_lazy("imports", "rule_imp1"), _lazy("imports", "rule_imp2"), _lazy
              _lazy("layout", "rule_lay1"), _lazy("layout", "rule_lay2"), _lazy("layout", "rule_imp4"),
              _lazy("layout", "rule_nameord1"), _lazy("naming", "rule_nameord2"), _lazy("naming", "rule_uniq1"),
              _lazy("naming", "rule_uniq2"), _lazy("naming", "rule_label2"), _lazy("naming", "rule_label5"),
-             _lazy("misc", "rule_empty1")],
+             _lazy("misc", "rule_empty1"),
+             _lazy("naming", "rule_uniq4")],
      "Static decision of: every import tuple a generator can emit (symbolic components expanded over the class "
      "tables) names an existing module and a name bound at its top level, read from the installed sources "
      "(IMP-1); every identifier in an emitted code fragment (templates, default/factory/converter strings, bases) "
@@ -259,7 +262,9 @@ prop("C04", [_lazy("emit", "rule_sib1"), _lazy("emit", "rule_sib2"), _lazy("emit
 prop("C12", [_lazy("layout", "rule_lay1"), _lazy("layout", "rule_lay2"), _lazy("layout", "rule_lay3"), _lazy("emit", "rule_inj5"),
              _lazy("state", "rule_glob1_generators"), _lazy("cli_flow", "rule_optflow_structure"),
              _lazy("naming", "rule_uniq2"),
-             _lazy("misc", "rule_compose1")],
+             _lazy("misc", "rule_compose1"),
+             _lazy("naming", "rule_uniq3"),
+             _lazy("naming", "rule_uniq4")],
      "Static decision of: in both layout functions the table of structure entries is built once up front and never "
      "rewritten in the placement loop, and on every non-raising path through the per-model loop (path enumeration; "
      "try/except counted once because insert_before raises before inserting) the current model's entry is inserted "
@@ -304,7 +309,8 @@ prop("C02", [_lazy("infer", "rule_opt"), _lazy("infer", "rule_nulldet"), _lazy("
 prop("C07", [_lazy("infer", "rule_opt"), _lazy("infer", "rule_eq1"), _lazy("emit", "rule_lim"), _lazy("infer", "rule_opt3"),
              _lazy("infer", "rule_samples1"), _lazy("registry", "rule_cmp1"), _lazy("registry", "rule_cmp2"),
              _lazy("infer", "rule_nf6"), _lazy("infer", "rule_widen1"), _lazy("infer", "rule_memo1"),
-             _lazy("misc", "rule_memokey1")],
+             _lazy("misc", "rule_memokey1"),
+             _lazy("naming", "rule_uniq5")],
      "Static decision of: the merge outcome's optionality is the same for mirrored inputs and the stored side is kept "
      "only on equality (OPT-5 on the OPT path table); equality of IR types is type-exact and order-insensitive "
      "(ComplexType compares the sorted MEMBER lists, StringLiteral compares sets) and caches are invalidated on "
